@@ -14,6 +14,18 @@ KEEP = {'submit', 'pstart', 'rbegin', 'dread', 'rend', 'load', 'w_die', 'w_term'
 TOKEN = re.compile(r'msg:\d+:\w:\d+')
 
 
+def _nn(x):
+    """JSON null has no TLA+ counterpart: None is handed over as the one-element sequence <<"None">> (a renaming; values
+    are sequences everywhere else, and TLC only compares like with like)."""
+    if x is None:
+        return ['None']
+    if isinstance(x, list):
+        return [_nn(y) for y in x]
+    if isinstance(x, dict):
+        return {k: _nn(v) for k, v in x.items()}
+    return x
+
+
 def to_monitor(tid: str, cfg: dict, trace: list, *, real: bool = False, caller_pid: Optional[int] = None,
                mark: Optional[str] = None, ctxkeys: Optional[list] = None, tnames: Optional[list] = None) -> dict:
     """Project a recorded execution onto the events the monitor consumes.  Pure renaming and
@@ -49,7 +61,7 @@ def to_monitor(tid: str, cfg: dict, trace: list, *, real: bool = False, caller_p
         c['tnames'] = tnames
     c['real'] = bool(real)
     c['ctxkeys'] = ctxkeys if ctxkeys is not None else ['' for _ in range(cfg['n'])]
-    return {'tid': tid, 'cfg': c, 'ev': ev}
+    return {'tid': tid, 'cfg': c, 'ev': _nn(ev)}
 
 
 def validate(traces: list, scratch: Path, *, props: str = 'ALL', heap: str = '2g', timeout: float = 3600) -> dict:
